@@ -186,7 +186,7 @@ def _shapes_c03_3(tier):
                 "last 8 bytes of the random, EMS extension presence; "
                 "session_id echoed or not (symbolic choice)"],
             patches=lambda s: (hello_proxies(), hello_stubs()),
-            max_paths=20000, timeout=(400, 1500), also=("C04",))
+            max_paths=20000, timeout=(400, 1500), also=("C04", "C20"))
 def c03_3(I, shape):
     """the client goes on only with a version inside its settings, a suite
     it offered that the version defines, null compression, and never past a
@@ -840,6 +840,9 @@ def _shapes_c03_8(tier):
         for alpn in ("overlap", "server-prefers-other", "disjoint", "none",
                      "client-none"):
             out.append(dict(ver=ver, alpn=alpn))
+        # heartbeat: offered by the client (default), declined / accepted
+        for hb in ("server-declines", "client-declines", "both"):
+            out.append(dict(ver=ver, alpn="none", heartbeat=hb))
     return out
 
 
@@ -864,6 +867,10 @@ def c03_8(I, shape):
     else:
         cset = P.settings12((3, 1), "ecdhe_rsa", "aes128", "sha")
         sset = P.settings12((3, 1), "ecdhe_rsa", "aes128", "sha")
+    hb = shape.get("heartbeat")
+    if hb:
+        cset.use_heartbeat_extension = hb != "client-declines"
+        sset.use_heartbeat_extension = hb != "server-declines"
     climit = I.int_range(64, 2 ** 14 + 1, "client_record_size_limit")
     slimit = I.int_range(64, 2 ** 14 + 1, "server_record_size_limit")
     cset.record_size_limit = climit
@@ -915,6 +922,12 @@ def c03_8(I, shape):
                                 s=repr(s.session.appProto)))
     I.check(c.session.serverName == s.session.serverName == "host.example",
             "server-name-agreed")
+    if hb:
+        want_hb = hb == "both"
+        I.check(c.heartbeat_supported == s.heartbeat_supported == want_hb,
+                "heartbeat-in-use-iff-both-sides-enabled-it",
+                detail=lambda: dict(c=c.heartbeat_supported,
+                                    s=s.heartbeat_supported, shape=hb))
     I.check(c._send_record_limit == s._recv_record_limit,
             "client-send-limit-is-server-receive-limit",
             detail=lambda: dict(c=repr(c._send_record_limit),
